@@ -35,7 +35,7 @@ type mBox struct {
 }
 
 type pendEv struct {
-	kind byte // 'A' a message the session has not been told about, 'X' an expunge it has not been told about
+	kind byte // 'A' a message the session has not been told about, 'X' an expunge it has not been told about, 'F' a flag change by another session
 	uid  uint32
 }
 
@@ -44,6 +44,7 @@ type mSess struct {
 	readOnly bool
 	view     []uint32 // UIDs in the order the session numbers them
 	pend     []pendEv
+	flagUpd  []uint32 // transient: UIDs whose unsolicited FLAGS update was delivered by the last command
 }
 
 const (
@@ -479,6 +480,8 @@ func (s *mSess) sync(allowExpunge bool) {
 		}
 		n++
 		switch ev.kind {
+		case 'F':
+			s.flagUpd = append(s.flagUpd, ev.uid)
 		case 'A':
 			s.view = append(s.view, ev.uid)
 		case 'X':
@@ -526,6 +529,9 @@ func (m *model) apply(c cmd, q quirks, ok bool) expect {
 			b.msgs[i].from = 0
 		}
 	})
+	for i := range m.sess {
+		m.sess[i].flagUpd = nil
+	}
 	needSelected := func() bool {
 		if s.box == nil {
 			e.status = "fail"
@@ -642,6 +648,13 @@ func (m *model) apply(c cmd, q quirks, ok bool) expect {
 		}
 		for _, i := range m.addressed(s, c.UID, c.Set, q) {
 			g := &s.box.msgs[i]
+			// the other sessions of this mailbox get an unsolicited FETCH FLAGS (C08's subject; the
+			// model only needs to know that one may arrive)
+			for k := range m.sess {
+				if k != c.S && m.sess[k].box == s.box {
+					m.sess[k].pend = append(m.sess[k].pend, pendEv{'F', g.uid})
+				}
+			}
 			cur := strings.Fields(g.flags)
 			switch c.Store {
 			case "":
